@@ -107,7 +107,7 @@ func (s Signature) WriteTo(w io.Writer) (n int64, err error) {
 }
 
 func (s *Signature) ReadFrom(r io.Reader) (n int64, err error) {
-	n2, err := r.Read(s[:])
+	n2, err := io.ReadFull(r, s[:])
 	return int64(n2), err
 }
 
